@@ -30,7 +30,8 @@ theorem add_shape {r r' : Registry} {s : Stmt} (h : r.add s = .ok r') :
     r'.mods = r.mods ++ [{ seq := r.mods.length, stmt := s }] ∧
     ∀ kv ∈ r'.modules, kv ∈ r.modules ∨
       (kv.2 = r.mods.length ∧ ({ seq := r.mods.length, stmt := s } : Mod).isSub = false) := by
-  unfold Registry.add at h
+  have h := (Registry.add_ok h).2
+  unfold Registry.addChecked at h
   simp only at h
   generalize hm : ({ seq := r.mods.length, stmt := s } : Mod) = m at h ⊢
   have hseq : m.seq = r.mods.length := by rw [← hm]
